@@ -339,6 +339,7 @@ pub fn configs(prop: &str, thorough: bool) -> Vec<(Cfg, Option<usize>)> {
                             c.deposit = if cw20 { Dep::Cw20 { amount: 2, refund } } else { Dep::Native { amount: 2, refund } };
                             c.max_props = 2;
                             c.kinds = vec![PK::Empty];
+                            c.latest = vec![LatestA::Unset, LatestA::Shorter, LatestA::AlreadyExpired];
                             c.proposers = vec![0, 3];
                             c.votes = vec![VoteA::Yes, VoteA::No];
                             c.voters_acting = vec![1, 2];
@@ -387,14 +388,17 @@ pub fn configs(prop: &str, thorough: bool) -> Vec<(Cfg, Option<usize>)> {
                 }
             }
             // a proposal whose own message spends the multisig's funds (shared pool)
-            if thorough {
+            {
                 for refund in [true, false] {
+                    if !thorough && !refund {
+                        continue;
+                    }
                     let mut c = Cfg::base(&format!("C15/A1,C3/count3/native/refund={refund}/spending-proposal"), true);
                     c.props = p.clone();
                     c.voters = vec![(0, 1), (2, 3)];
                     c.th = Th::Count(3);
                     c.deposit = Dep::Native { amount: 2, refund };
-                    c.max_props = 3;
+                    c.max_props = if thorough { 3 } else { 2 };
                     c.kinds = vec![PK::Empty, PK::Pay];
                     c.proposers = vec![0];
                     c.votes = vec![VoteA::Yes, VoteA::No];
